@@ -2,20 +2,26 @@ package main
 
 // C06 — documented concurrent use of Conn is free of data races.
 //
-// Static side: the lock/map action sequence of every function of package smpp
-// touching Conn.pending (gen_connlocks.go) must be well locked; the Coq
-// theorems quantify over those routines (Gen/ConnLocks.v).
-// Dynamic side: the -race build of this harness (.work/harness_race) runs the
-// README workload and forced schedules of C05/C15/C16; a race report whose
-// racing access is made by code of go-smpp, or a "concurrent map" abort of
-// the runtime, is the failing input.
+// Static side (c06_extract.go -> Gen/ConnLocks.v): for every README role the
+// control-flow graph of lock operations and accesses to ANY part of the state
+// of Conn; two accesses to the same non-synchronisation location, at least one
+// a write, by roles that can run in different goroutines, without a common
+// mutex, are the failing input (the two sites, the two roles, the held sets).
+// The theorems of Properties/C06.v are about any such table; the generated
+// cases evaluate the Coq checker on the table of the current source.
+// What the extraction cannot interpret is left to the dynamic side, with a note.
+//
+// Dynamic side (c06_dyn.go): the README roles under `go build -race`, one
+// child process per configuration.
+//
+// Tie (c06_tie.go): the lock operations the table predicts are observed on
+// the running code through the runtime's mutex-contention profile.
 
 import (
 	"fmt"
 	"os"
+	"sort"
 	"strings"
-
-	"github.com/M2MGateway/go-smpp/pdu"
 )
 
 const libPrefix = "github.com/M2MGateway/go-smpp"
@@ -26,158 +32,168 @@ func init() {
 		raceLoadMain()
 		os.Exit(0)
 	}
+	if len(os.Args) > 1 && os.Args[1] == "c06static" { // debugging aid: the static verdict for $VERIF_REPO
+		t := extractConnTable()
+		fmt.Println("err:", t.Err, "notes:", t.Notes)
+		fmt.Printf("%d locations, %d mutexes, %d nodes, %d entries\n", len(t.Locs), len(t.Mus), len(t.Nodes), len(t.Entries))
+		for _, e := range t.Entries {
+			if len(e.Bad) > 0 {
+				fmt.Printf("NOT ANALYSED %s (readme=%v): %s\n", e.Name, e.Readme, strings.Join(e.Bad, " | "))
+			}
+		}
+		for _, rd := range []bool{true, false} {
+			for _, c := range t.conflicts(rd) {
+				fmt.Printf("CONFLICT readme=%v %q: %s || %s\n", rd, t.Locs[c.Loc].Path, t.describe(c.N1), t.describe(c.N2))
+			}
+		}
+		os.Exit(0)
+	}
 }
 
 func corrC06(r *Run) {
-	r.Import("Model.LockProto")
-	r.Import("Model.ConnRun")
-	r.Rule = "static: every function of package smpp that mentions Conn.pending, as a lock/map action sequence; " +
-		"dynamic (go build -race): README workload (Watch, EnquireLink with 2 ms tick, 1..16 goroutines calling Submit and Send, a consumer of PDU() answering requests, " +
-		"one caller whose own context times out about when its response arrives, a peer answering asynchronously and sending unsolicited deliver_sm, final Close) " +
-		"with default and custom NextSequence, plus forced schedules of C05, C15 and C16 and schedules in which a response is handed over exactly while the caller's own context ends; " +
-		"non-trivial = workloads with at least two submitting goroutines; distinct by workload label"
-	// ---- static
-	rs, err := connLockRoutines()
-	if err != nil {
-		fmt.Fprintln(os.Stderr, "cannot parse the root package:", err)
-		os.Exit(2)
-	}
-	touched := false
-	for _, rt := range rs {
-		held, ok := false, true
-		for _, a := range rt.Acts {
-			switch {
-			case a == "ALock":
-				ok = ok && !held
-				held = true
-			case a == "AUnlock":
-				ok = ok && held
-				held = false
-			default:
-				touched = true
-				ok = ok && held
-			}
-		}
-		ok = ok && !held
-		r.Count("routine/"+rt.Name, true, "static/routine")
-		in := fmt.Sprintf("routine %s [%s]", rt.Name, strings.Join(rt.Acts, "; "))
-		if !ok {
-			r.Fail("lock-discipline/"+rt.Name, "a function of package smpp touches Conn.pending outside the mutex (or mis-nests Lock/Unlock)", in,
-				"actions in source order: "+strings.Join(rt.Acts, "; "), "Lock; map accesses; Unlock")
-		}
-		r.Case(in, fmt.Sprintf("Bool.eqb (routine_ok [%s]) %s", strings.Join(rt.Acts, "; "), coqBool(ok)))
-	}
-	if !touched {
-		r.Notes = append(r.Notes, "no function of package smpp mentions Conn.pending: the extraction found nothing (renamed field?)")
-	}
-	// ---- random interleavings of threads running the extracted routines, through the model's semantics
-	if len(rs) > 0 {
-		for i, n := 0, r.N(160, 900); i < n; i++ {
-			c06Interleaving(r, rs, i)
-		}
-	}
-	// ---- the LTS's pending-table events, expanded into their routines, obey the discipline
-	ts := pduTypes()
-	for i, n := 0, r.N(48, 300); i < n; i++ {
-		c06LockTrace(r, ts, i)
-	}
-	// ---- dynamic
+	r.Import("Model.Base")
+	r.Import("Model.LockTable")
+	r.Import("Gen.ConnLocks")
+	r.Rule = "static: per README role (Watch, EnquireLink, Submit, Send, Close, Done, PDU) the lock/access control-flow graph over every location of Conn's state, extracted from the current source; " +
+		"one case per location (Coq verdict of the regenerated table) and random schedules of 2..6 threads over the table; " +
+		"dynamic (go build -race, one child process per configuration): README workload with 1..16 submitting goroutines and default/5 s timeouts; senders running for a fixed time with " +
+		"WriteTimeout/ReadTimeout 2 ms, 20 ms, 200 ms and default; keep-alive whose enquire_link is left unanswered with the application's Close coming from a timer; Close while senders run; " +
+		"the peer dropping the transport; forced schedules of C05/C15/C16; response handed over exactly while the caller's own context ends; " +
+		"non-trivial = workloads with at least two goroutines sending; distinct by workload label"
+	c06Static(r)
+	c06Tie(r)
 	c06Dynamic(r)
 }
 
-// c06LockTrace: a forced schedule (as in C05) whose model trace, with every
-// pending-table event expanded into its lock routine, must pass trace_ok.
-func c06LockTrace(r *Run, ts []pduType, idx int) {
-	rng := r.Rng
-	w := NewWorld(true)
-	defer w.Shutdown()
-	w.StartWatch()
-	n := 1 + rng.Intn(5)
-	var calls []*Call
-	for i := 0; i < n; i++ {
-		calls = append(calls, w.Go(i, CallSpec{Kind: "submit", Seq: int32(100 + 3*i + idx), P: genSendable(rng, ts, true, 400)})[0])
-	}
-	for _, i := range permOf(rng, n) {
-		c := calls[i]
-		switch rng.Intn(3) {
-		case 0:
-			w.PeerPDU(respFor(c.P, c.Seq))
-			w.Release(c)
-		case 1:
-			w.Release(c)
-			w.PeerPDU(respFor(c.P, c.Seq))
-		default:
-			w.Release(c)
-			w.CancelCtx(c)
+func (t *lkTable) describe(n *lkNode) string {
+	e := t.Entries[n.Entry]
+	held := "no mutex held"
+	if len(n.LS) > 0 {
+		var hs []string
+		for _, h := range n.LS {
+			m := t.Mus[h.M].Path
+			if !h.Excl {
+				m += " (shared)"
+			}
+			hs = append(hs, m)
 		}
+		held = "holding " + strings.Join(hs, ", ")
 	}
-	w.PeerPDU(&pdu.DeliverSM{Header: pdu.Header{Sequence: 7}})
-	input := "sched " + w.Script()
-	r.Count(input, n >= 2, "static/lts-lock-trace")
-	if runStuck(r, w, input) {
-		return
+	what := map[string]string{"MRead": "read", "MWrite": "write", "MAtomicRead": "atomic read", "MAtomicWrite": "atomic write"}[n.Mode]
+	many := "one goroutine"
+	if e.Multi {
+		many = "any number of goroutines"
 	}
-	gs := make([]string, len(w.groups))
-	for i, g := range w.groups {
-		gs[i] = coqList(g)
-	}
-	r.Case("lock trace of "+input[:min(len(input), 160)], fmt.Sprintf("lock_trace_ok fixed true %s", coqList(gs)))
+	return fmt.Sprintf("%s at %s, reached from %s (%s), %s", what, n.Site, e.Name, many, held)
 }
 
-// c06Interleaving: 2..6 threads, each running 1..4 of the routines found in the source, stepped in a
-// random order that respects the mutex; the Go side computes the verdict of the same discipline.
-func c06Interleaving(r *Run, rs []lockRoutine, idx int) {
-	rng := r.Rng
-	nt := 2 + rng.Intn(5)
-	progs := make([][]string, nt)
-	for t := range progs {
-		for j, n := 0, 1+rng.Intn(4); j < n; j++ {
-			progs[t] = append(progs[t], rs[rng.Intn(len(rs))].Acts...)
-		}
+func siteFunc(site string) string {
+	if i := strings.LastIndex(site, " "); i >= 0 {
+		return site[i+1:]
 	}
-	pos := make([]int, nt)
-	holder := -1
-	ok, adjacent := true, false
-	var sched []string
-	lastMap, lastWrite := -1, false
-	for {
-		var ready []int
-		for t := range progs {
-			if pos[t] < len(progs[t]) && !(progs[t][pos[t]] == "ALock" && holder >= 0) {
-				ready = append(ready, t)
-			}
+	return site
+}
+
+func c06Static(r *Run) {
+	t := extractConnTable()
+	if t.Err != "" {
+		r.Notes = append(r.Notes, "static extraction failed ("+t.Err+"): the verdict rests on the dynamic evidence alone")
+		return
+	}
+	for _, n := range t.Notes {
+		r.Notes = append(r.Notes, "static extraction: "+n)
+	}
+	for _, e := range t.badEntries(true) {
+		r.Notes = append(r.Notes, fmt.Sprintf("static: role %s could not be analysed (%s): it is not in the Coq table; its accesses are covered by the dynamic evidence only", e.Name, strings.Join(e.Bad, " | ")))
+	}
+	// ---- direct: conflicting accesses without a common mutex between README roles
+	confl := map[int][]lkConflict{}
+	for _, c := range t.conflicts(true) {
+		if len(t.Entries[c.N1.Entry].Bad)+len(t.Entries[c.N2.Entry].Bad) > 0 {
+			continue // a role whose lock state could not be followed: no verdict from here
 		}
-		if len(ready) == 0 {
+		confl[c.Loc] = append(confl[c.Loc], c)
+		l := t.Locs[c.Loc]
+		f1, f2 := siteFunc(c.N1.Site), siteFunc(c.N2.Site)
+		if f2 < f1 {
+			f1, f2 = f2, f1
+		}
+		in := fmt.Sprintf("two goroutines on one Conn, state %q (%s): [1] %s; [2] %s", l.Path, l.Type, t.describe(c.N1), t.describe(c.N2))
+		r.Fail("unsynchronised/"+f1+"+"+f2, "two README roles access the same connection state, at least one writing, with no common mutex held and the state is not a synchronisation object",
+			in, "no common mutex: "+t.describe(c.N1)+" || "+t.describe(c.N2), "every pair of conflicting accesses by different goroutines is ordered by a common mutex (or the state is a channel/context/atomic/sync object)")
+	}
+	for _, c := range t.conflicts(false) {
+		r.Notes = append(r.Notes, fmt.Sprintf("static (outside the README usage, not a verdict): state %q: %s || %s", t.Locs[c.Loc].Path, t.describe(c.N1), t.describe(c.N2)))
+		if len(r.Notes) > 30 {
 			break
 		}
-		t := ready[rng.Intn(len(ready))]
-		a := progs[t][pos[t]]
-		pos[t]++
-		sched = append(sched, fmt.Sprintf("%d%%nat", t))
-		switch a {
-		case "ALock":
-			holder = t
-			lastMap = -1
-		case "AUnlock":
-			ok = ok && holder == t
-			holder = -1
-			lastMap = -1
-		default:
-			w := a == "AMap true"
-			ok = ok && holder == t
-			if lastMap >= 0 && lastMap != t && (w || lastWrite) {
-				adjacent = true
-			}
-			lastMap, lastWrite = t, w
+	}
+	// ---- cases: the Coq checker on the regenerated table
+	inTab := 0
+	for _, e := range t.Entries {
+		if t.inTable(e) {
+			inTab++
+			r.Count("entry/"+e.Name, true, "static/role-in-table")
 		}
 	}
-	var ps []string
-	for _, p := range progs {
-		ps = append(ps, "["+strings.Join(p, "; ")+"]")
+	r.Case("the certificate of the regenerated table (held set at every node, edge by edge)", "table_wf conn_table")
+	written := map[int]bool{}
+	accessed := map[int]int{}
+	for _, n := range t.Nodes {
+		if n.Kind == "acc" && t.inTable(t.Entries[n.Entry]) {
+			accessed[n.Loc]++
+			if modeWrite(n.Mode) {
+				written[n.Loc] = true
+			}
+		}
 	}
-	in := fmt.Sprintf("interleave threads=%d sched=%s", nt, strings.Join(sched, ","))
-	r.Count(in, true, "static/interleaving")
-	r.Case(in[:min(len(in), 200)], fmt.Sprintf("Bool.eqb (lrun_ok %s %s) %s", coqList(ps), coqList(sched), coqBool(ok && !adjacent)))
+	for _, l := range t.Locs {
+		ok := true
+		for _, c := range confl[l.ID] {
+			if t.inTable(t.Entries[c.N1.Entry]) && t.inTable(t.Entries[c.N2.Entry]) {
+				ok = false
+			}
+		}
+		kind := "read-only after construction"
+		switch {
+		case l.Sync:
+			kind = "synchronisation object"
+		case !ok:
+			kind = "UNRESOLVED"
+		case written[l.ID]:
+			kind = "written under a common mutex"
+		}
+		r.Count(fmt.Sprintf("location %s : %s", l.Path, l.Type), written[l.ID] || l.Sync, "static/location/"+kind)
+		r.Case(fmt.Sprintf("location %s (%s, %d access nodes): %s", l.Path, l.Type, accessed[l.ID], kind),
+			fmt.Sprintf("Bool.eqb (loc_ok conn_table %d) %s && Bool.eqb (loc_sync conn_table %d) %s", l.ID, coqBool(ok), l.ID, coqBool(l.Sync)))
+	}
+	// ---- random schedules over the table, run by the model; at every state no two threads are at conflicting accesses of a resolved location
+	var ids []int
+	for _, e := range t.Entries {
+		if t.inTable(e) {
+			ids = append(ids, e.ID)
+		}
+	}
+	sort.Ints(ids)
+	if len(ids) > 0 {
+		for i, n := 0, r.N(24, 120); i < n; i++ {
+			nt := 2 + r.Rng.Intn(5)
+			// roles: thread 0 may run every single-goroutine role, the others only the any-number roles
+			var sched []string
+			for k := 0; k < 300; k++ {
+				sched = append(sched, fmt.Sprintf("(%d%%nat, %d)", r.Rng.Intn(nt), func() int {
+					if r.Rng.Intn(3) == 0 {
+						return ids[r.Rng.Intn(len(ids))]
+					}
+					return r.Rng.Intn(3)
+				}()))
+			}
+			r.Count(fmt.Sprintf("schedule#%d threads=%d", i, nt), true, "static/random-schedule")
+			r.Case(fmt.Sprintf("random schedule #%d, %d threads, 300 attempted steps over the regenerated table", i, nt),
+				fmt.Sprintf("sched_check conn_table %s", coqList(sched)))
+		}
+	}
+	r.Sample(map[string]interface{}{"locations": len(t.Locs), "mutexes": len(t.Mus), "nodes": len(t.Nodes), "roles_in_table": inTab, "entries_total": len(t.Entries)})
 }
 
 func permOf(r *Rng, n int) []int {
@@ -191,4 +207,3 @@ func permOf(r *Rng, n int) []int {
 	}
 	return p
 }
-
